@@ -944,7 +944,7 @@ func (c *ctx) protocol(hf []*types.Var) {
 	}
 	r.Fn(fn)
 	recv := recvObj(info, fd)
-	type st struct{ flushed, pastHeader, reset, copied, summed, rewound, written, bad bool }
+	type st struct{ flushed, pastHeader, reset, copied, summed, rewound, written, bad, failing, retNil, retSet, dead bool }
 	fl := core.NewFlow(info, fd.Body)
 	var firstBad string
 	var badPos token.Pos
@@ -1034,14 +1034,88 @@ func (c *ctx) protocol(hf []*types.Var) {
 		return s, false
 	}
 	missing := false
+	isErr := func(e ast.Expr) bool {
+		t := info.TypeOf(e)
+		return t != nil && types.TypeString(t, nil) == "error"
+	}
+	// INT-10: the header that makes the entry verify is written only when nothing failed before. The
+	// accumulator of the first error (the variable the flush result is stored in) is followed: `retNil`
+	// holds on the paths that established it is nil and have not assigned it since.
+	var acc types.Object
+	ast.Inspect(fd.Body, func(n ast.Node) bool {
+		if as, ok := n.(*ast.AssignStmt); ok && len(as.Lhs) == 1 && len(as.Rhs) == 1 && acc == nil {
+			if c, ok := ast.Unparen(as.Rhs[0]).(*ast.CallExpr); ok && isErr(as.Lhs[0]) {
+				if fn := core.Callee(info, c); fn != nil && fn.Name() == "Close" {
+					acc = core.ObjOf(info, as.Lhs[0])
+				}
+			}
+		}
+		return true
+	})
+	unguarded := token.NoPos
+	step10 := func(s st, n ast.Node) (st, bool) {
+		if s.dead {
+			return s, true // a path the tests on the accumulator rule out
+		}
+		for _, x := range core.NodeCalls(n) {
+			if core.FuncID(core.Callee(info, x)) == core.PkgCache+".Header.WriteTo" && fieldOf(info, methodRecv(x), recv, "hd") {
+				if s.flushed && !s.retNil && unguarded == token.NoPos {
+					unguarded = x.Pos()
+				}
+			}
+		}
+		// the calls of the node are evaluated before its assignment takes effect
+		s2, stop := step(s, n)
+		if as, ok := n.(*ast.AssignStmt); ok && acc != nil {
+			for _, l := range as.Lhs {
+				if core.ObjOf(info, l) == acc {
+					s2.retNil, s2.retSet = false, false
+				}
+			}
+		}
+		return s2, stop
+	}
 	core.Scan(fl, fl.Entry(), st{}, core.Stepper[st]{
-		Node: step,
+		Node: step10,
+		Edge: func(s st, cond ast.Expr, taken bool) st {
+			core.Facts(cond, taken, func(atom ast.Expr, val bool) {
+				be, ok := ast.Unparen(atom).(*ast.BinaryExpr)
+				if !ok || (be.Op != token.NEQ && be.Op != token.EQL) || !core.IsNil(info, be.Y) || !isErr(be.X) {
+					return
+				}
+				isAcc := acc != nil && core.ObjOf(info, be.X) == acc
+				if (be.Op == token.NEQ) == val {
+					s.failing = true // an error is known to be pending on this path
+					if isAcc {
+						if s.retNil {
+							s.dead = true
+						}
+						s.retSet = true
+					}
+				} else if isAcc {
+					if s.retSet {
+						s.dead = true // known non-nil and not assigned since
+					}
+					s.retNil = true
+				}
+			})
+			return s
+		},
 		Exit: func(s st, b *cfg.Block, last ast.Node) {
-			if s.flushed && !s.written {
+			if s.flushed && !s.written && !s.failing && !s.dead {
 				missing = true
 			}
 		},
 	})
+	c.r.Rule("INT-10", "(*File).Close writes the final header - the only thing that makes an entry verify - on no path on which the flush of the compressor or a later step may have failed: the first-error accumulator is known to be nil where Header.WriteTo is called and is not assigned in between (a header written after a failed flush verifies for the truncated body; only the caller's os.Remove, if it gets to run, keeps that entry from being opened)", 1)
+	switch {
+	case writeTo == nil || acc == nil:
+		c.r.Und("INT-10", fn+"|finalise", p.Pos(fd.Pos()), "no flush result variable / header write found in Close")
+	case unguarded != token.NoPos:
+		c.r.Bad("INT-10", fn+"|finalise", p.Pos(unguarded), "the final header is written on a path on which the flush of the compressor (or the seek / re-hash behind it) may have failed: the header then verifies for whatever part of the body reached the file, cache.Open succeeds on the entry and reading it yields a strict prefix of what was written. Failing history: a write fault (ENOSPC, EFBIG) during the final flush, then a crash or kill before the caller removes the file")
+	default:
+		c.r.Ok("INT-10", fn+"|finalise", p.Pos(writeTo.Pos()), "the header is finalised only where the accumulated error is known to be nil")
+	}
 	if flushCall == nil || writeTo == nil {
 		r.Bad("INT-6", fn+"|order", p.Pos(fd.Pos()), "Close does not both close the compressor and write the header")
 	} else if firstBad != "" {
